@@ -48,6 +48,32 @@ def run_check(d, prop, tier, seed='1'):
     return p.returncode, sites, p.stdout[-1500:] + p.stderr[-1500:]
 
 
+RELATED = {
+    'concepts/matrices.py': 'C01 C02 C03 C05 C07 C10 C11 C15 C16 C19',
+    'concepts/contexts.py': 'C01 C02 C03 C05 C10 C11 C12 C14 C15 C16 C17 C18 C19',
+    'concepts/lattices.py': 'C02 C03 C05 C06 C07 C09 C10 C11 C15 C17 C18 C20',
+    'concepts/lattice_members.py': 'C02 C05 C06 C07 C08 C09 C10 C11 C15 C17 C18 C20',
+    'concepts/algorithms/': 'C03 C04 C05 C06 C09 C15',
+    'concepts/definitions.py': 'C13 C14 C15 C17',
+    'concepts/tools.py': 'C09 C11 C13 C14 C17',
+    'concepts/junctors.py': 'C15 C16 C17',
+    'concepts/formats/': 'C11 C12 C17',
+    'concepts/visualize.py': 'C17 C20',
+    'concepts/_common.py': 'C04',
+}
+
+
+def related_checks(patchfile, own):
+    import re
+    files = re.findall(r'^diff --git a/(\S+)', open(patchfile).read(), flags=re.M)
+    props = {own}
+    for f in files:
+        for prefix, names in RELATED.items():
+            if f.startswith(prefix):
+                props.update(names.split())
+    return sorted(props)
+
+
 def main():
     ap = argparse.ArgumentParser()
     ap.add_argument('--only')
@@ -55,6 +81,7 @@ def main():
     ap.add_argument('--tier', default='quick')
     ap.add_argument('--seeded', action='store_true', help='run seeded/<id>/patch.diff instead of the catalogue')
     ap.add_argument('--all-checks', action='store_true')
+    ap.add_argument('--related', action='store_true', help='run the checks whose property exercises the files the patch touches')
     ap.add_argument('--seed', default='1')
     ap.add_argument('--base', default='seeded', help='directory of <id>/patch.diff + meta.json (seeded, refactorings)')
     ap.add_argument('--out', default=os.path.join(VERIF, 'mutants', 'RESULTS.json'))
@@ -89,6 +116,8 @@ def main():
                 props = args.checks.split(',')
             elif args.all_checks:
                 props = allchecks
+            elif args.related:
+                props = related_checks(m['patch'], m['property'])
             else:
                 props = [m['property']] + list(m.get('also', []))
             row = results.setdefault(m['id'], {})
